@@ -219,7 +219,9 @@ def relations(rng, tier, rpt):
     rpt.extra["impl_relation_checks"] = n
     bad = bad[:6]
     bad += _short_lived_wallets(rng, tier, rpt)
-    return bad[:9]
+    bad = bad[:9]
+    bad += _one_wallet_many_threads(rng, tier, rpt)
+    return bad[:12]
 
 
 # ---- the Monero scheme recomputed with libsodium (PyNaCl bindings) and pycryptodome's Keccak: no bip_utils code, no state
@@ -321,4 +323,110 @@ def _short_lived_wallets(rng, tier, rpt):
             gc.collect()
     rpt.extra["short_lived_wallets"] = n_wallets
     rpt.extra["short_lived_wallet_observations"] = n_obs
+    return bad[:3]
+
+
+def _one_wallet_many_threads(rng, tier, rpt):
+    """"For every (account, index) pair" holds for every CALL: an address depends on the wallet's keys, its network and the arguments of the
+    call, not on what other threads ask the same object at the same moment. ONE wallet object (full wallet, watch-only wallet, and the public
+    `MoneroSubaddress` helper on its own) is shared by several threads that are released together (barrier, minimal switch interval); each
+    thread asks for its OWN, not yet answered (account, index) pairs — sharing accounts and indexes with the other threads' pairs, so that
+    any mixture of two calls' arguments is itself a legitimate pair — interleaved with integrated and primary addresses. Every answer is
+    compared with the scheme recomputed outside the library (libsodium + Keccak) before the threads start; a fresh object per round."""
+    import sys, threading
+    from nacl import bindings
+    from bip_utils import MoneroSubaddress, MoneroPrivateKey, MoneroPublicKey
+    bad = []
+
+    def rep(what, inp, got, want):
+        bad.append({"property": "C16", "entry_point": what, "request_lines": [], "relation": what, "input": inp,
+                    "impl_output": got, "model_output": want, "no_failing_input": False})
+
+    n_threads = 6
+    per_thread = 60 if tier == "quick" else 400
+    coins = list(MoneroCoins)
+    kinds = ["Monero.FromSeed", "Monero.FromWatchOnly", "MoneroSubaddress"]
+    if tier != "quick":
+        kinds = kinds * 3 + ["Monero.FromPrivateSpendKey"]
+    n_obs = 0
+    old = sys.getswitchinterval()
+    for rnd, kind in enumerate(kinds):
+        coin = coins[rng.randrange(len(coins))]
+        conf = Monero.FromSeed(bytes(range(1, 33)), coin).CoinConf()
+        nv_prim, nv_sub, nv_int = conf.AddrNetVersion(), conf.SubaddrNetVersion(), conf.IntegratedAddrNetVersion()
+        seed = bytes(rng.getrandbits(8) for _ in range(32))
+        spend = _sc_reduce(seed)
+        view = _sc_reduce(_keccak256(spend))
+        pub_s = bindings.crypto_scalarmult_ed25519_base_noclamp(spend)
+        if kind == "Monero.FromSeed":
+            obj = Monero.FromSeed(seed, coin)
+        elif kind == "Monero.FromPrivateSpendKey":
+            obj = Monero.FromPrivateSpendKey(spend, coin)
+        elif kind == "Monero.FromWatchOnly":
+            obj = Monero.FromWatchOnly(view, pub_s, coin)
+        else:
+            obj = MoneroSubaddress(MoneroPrivateKey.FromBytes(view), MoneroPublicKey.FromBytes(pub_s))
+        # accounts and indexes drawn from small shared pools (plus the range edges): thread t's pairs are distinct from every other thread's,
+        # yet each of its accounts / indexes also occurs in other threads' pairs
+        majors = [1, 2, 3, 2**16, 2**31, 2**32 - 1, 0] + [rng.getrandbits(32) for _ in range(3)]
+        base = rng.randrange(1, 1000)
+        jobs = []
+        for t in range(n_threads):
+            mine = []
+            for i in range(per_thread):
+                major = majors[(i + t) % len(majors)]
+                minor = base + (i * n_threads + t if i % 5 else i)          # every fifth index is asked by all threads, under different accounts
+                if kind == "MoneroSubaddress":
+                    if i % 2:
+                        mine.append(("ComputeAndEncodeKeys(minor=%d, major=%d, subaddress net version)" % (minor, major),
+                                     lambda mi=minor, ma=major: obj.ComputeAndEncodeKeys(mi, ma, nv_sub), _ref_address(nv_sub, view, pub_s, minor, major)))
+                    else:
+                        def keys(mi=minor, ma=major):
+                            d, c = obj.ComputeKeys(mi, ma)
+                            body = nv_sub + d.RawCompressed().ToBytes() + c.RawCompressed().ToBytes()
+                            return _xmr_b58(body + _keccak256(body)[:4])
+                        mine.append(("ComputeKeys(minor=%d, major=%d) (the two keys, laid out as an address)" % (minor, major), keys, _ref_address(nv_sub, view, pub_s, minor, major)))
+                elif i % 11 == 7:
+                    pid = bytes([t]) + bytes(rng.getrandbits(8) for _ in range(7))
+                    mine.append(("IntegratedAddress(%s)" % pid.hex(), lambda pid=pid: obj.IntegratedAddress(pid), _ref_address(nv_int, view, pub_s, 0, 0, pid)))
+                elif i % 23 == 5:
+                    mine.append(("PrimaryAddress()", lambda: obj.PrimaryAddress(), _ref_address(nv_prim, view, pub_s, 0, 0)))
+                else:
+                    mine.append(("Subaddress(minor=%d, major=%d)" % (minor, major), lambda mi=minor, ma=major: obj.Subaddress(mi, ma),
+                                 _ref_address(nv_sub, view, pub_s, minor, major)))
+            # a (major, minor) pair never occurs twice, in one thread or across threads (a repeated pair would be answered from the first answer)
+            jobs.append(mine)
+        seen_names = set()
+        for t in range(n_threads):
+            jobs[t] = [j for j in jobs[t] if j[0].startswith(("Primary", "Integrated")) or not (j[0] in seen_names or seen_names.add(j[0]))]
+        results = [[None] * len(jobs[t]) for t in range(n_threads)]
+        bar = threading.Barrier(n_threads)
+
+        def worker(t):
+            bar.wait()
+            for i, (_what, f, _want) in enumerate(jobs[t]):
+                try:
+                    results[t][i] = f()
+                except Exception as ex:  # noqa
+                    results[t][i] = "raised %s: %s" % (type(ex).__name__, str(ex)[:80])
+        sys.setswitchinterval(1e-6)
+        try:
+            ths = [threading.Thread(target=worker, args=(t,)) for t in range(n_threads)]
+            for th in ths:
+                th.start()
+            for th in ths:
+                th.join()
+        finally:
+            sys.setswitchinterval(old)
+        wrong = [(t, i) for t in range(n_threads) for i in range(len(jobs[t])) if results[t][i] != jobs[t][i][2]]
+        n_obs += sum(len(j) for j in jobs)
+        if wrong:
+            t, i = wrong[0]
+            what, _f, want = jobs[t][i]
+            other = [jj[0] for tt in range(n_threads) for jj in jobs[tt] if tt != t and jj[2] == results[t][i]]
+            rep("%s shared by %d threads: %s answered to one thread is not the scheme's address for the wallet's keys and these arguments (%d of %d concurrent answers wrong%s)"
+                % (kind, n_threads, what.split("(")[0], len(wrong), sum(len(j) for j in jobs), "; it is the answer to another thread's %s" % other[0] if other else ""),
+                "%s %s, thread %d call #%d: %s" % (kind, ("seed=" + seed.hex()) if kind != "Monero.FromWatchOnly" and kind != "MoneroSubaddress" else "view=%s spend_pub=%s" % (view.hex(), pub_s.hex()),
+                                                     t, i, what), str(results[t][i]), want)
+    rpt.extra["shared_wallet_thread_observations"] = n_obs
     return bad[:3]
